@@ -21,7 +21,7 @@
 EXTENDS Naturals, Sequences, FiniteSets, TLC, VerifEmit
 
 CONSTANTS
-    Mode,          \* "mc" | "edges" | "tree"
+    Mode,          \* "mc" | "edges" | "pairs" | "tree"
     Depth,         \* tree mode: number of hist entries at which a behaviour is emitted
     MaxCalls,      \* calls per session
     Calls,         \* the set of call records offered to the client (see cfg-specific sets below)
@@ -147,6 +147,8 @@ McCalls == UnaryCalls(0, {""})
 Record(step) ==
     /\ hist' = IF Mode = "mc" THEN <<step>> ELSE Append(hist, step)
     /\ (Mode = "edges") => EmitTrace(hist')
+    \* pairs: one session per (first call, probe); the View below keeps the first call apart
+    /\ (Mode = "pairs" /\ ncalls = 2) => EmitTrace(hist')
     /\ (Mode = "tree" /\ Len(hist') = Depth) => EmitTrace(hist')
 Silent == hist' = hist
 
@@ -157,7 +159,7 @@ InputOf(c) == [t |-> "input", c |-> c]
 
 Call(c) ==
     /\ pc = "read" /\ inq = <<>> /\ ~closed /\ ncalls < MaxCalls
-    /\ (ncalls > 0) => c \in Probes
+    /\ IF ncalls = 0 THEN c \in Calls ELSE c \in Probes
     /\ (Mode = "tree") => Len(hist) < Depth - 1
     /\ inq' = IF IsStream(c) THEN << [t |-> "req", c |-> c], InputOf(c) >>
                               ELSE << [t |-> "req", c |-> c] >>
@@ -399,7 +401,7 @@ Server == ReadRequest_OK \/ ReadRequest_RpcError \/ ReadRequest_EOF \/ ReadReque
           \/ Init_Fail \/ Init_OK \/ WriteHeader \/ InputEOS \/ Cancel \/ CastFail \/ Turn
           \/ CloseAndDrain
 
-Next == (\E c \in Calls : Call(c)) \/ CloseConn \/ Server
+Next == (\E c \in Calls \cup Probes : Call(c)) \/ CloseConn \/ Server
 
 Spec == Init /\ [][Next]_vars
 FairSpec == Spec /\ WF_vars(Server)
@@ -477,5 +479,10 @@ HookBalanced ==
 \* every call the client issued is eventually answered and the loop ends when the client closes
 Answered == (inq # <<>>) ~> (inq = <<>> /\ pc \in {"read", "dead"})
 
-View == <<pc, inq, cur, out, ix, tx, herr, jr, hk, ncalls, closed>>
+\* The server keeps nothing from one call to the next, so all first calls lead to the same state and
+\* "edges" yields each probe once.  What a call leaves on the wire is exactly what C02 is about, so
+\* Mode = "pairs" distinguishes states by the first call of the session: every first call is then
+\* followed by every probe in some emitted session.
+View == <<pc, inq, cur, out, ix, tx, herr, jr, hk, ncalls, closed,
+          IF Mode = "pairs" /\ Len(hist) > 1 THEN hist[2].args ELSE 0>>
 =============================================================================
